@@ -177,9 +177,19 @@ def run(tier):
     sarpy_guard()
     chk = Check('C02', tier)
     rng = chk.rng
-    broken = chk.prove(['SarpyModel.Props.C02', 'SarpyModel.Drivers'], 'SarpyModel.Props.C02', 'Sarpy.Props.C02', REQUIRED)
+    # the segmentation loop is regenerated from /repo (translate/gen_loops.py) and bridged to Spec.Layout.segmentation: the row routing theorem then
+    # holds for the regenerated code (Bridge/LoopsPipe.lean)
+    import loops2
+    l_info = loops2.regen('nitf')
+    broken = chk.prove(['SarpyModel.Props.C02', 'SarpyModel.Bridge.LoopsPipe', 'SarpyModel.Drivers'], 'SarpyModel.Props.C02', 'Sarpy.Props.C02', REQUIRED,
+                       {'loop_kernels': l_info},
+                       extra=[('SarpyModel.Bridge.LoopsPipe', 'Sarpy.Bridge.LP', ['gen_segmentation_split_join']),
+                              ('SarpyModel.Bridge.Loops', 'Sarpy.Bridge.L', ['gen_seg_cond', 'gen_seg_body', 'gen_default_image_segmentation'])])
+    if [u for u in l_info['unsupported'] if u[0] == 'default_image_segmentation']:
+        broken.append('translator could not express: ' + json.dumps(l_info['unsupported']))
     fails = []
     stats = {}
+    disagreements = []
     seen = set()
     tmpdir = tempfile.mkdtemp(prefix='c02_', dir=os.environ.get('VERIF_SCRATCH', '/var/tmp'))
     try:
@@ -188,8 +198,10 @@ def run(tier):
     finally:
         shutil.rmtree(tmpdir, ignore_errors=True)
         logging.disable(logging.NOTSET)
+    # segmentation kernel: implementation vs regenerated Lean vs reference definition + direct tiling oracle
+    nseg = loops2.run_kernels(rng, tier, ['seg'], fails, disagreements, stats, relax=('seg-limit',))
     chk.coverage.update({
-        'evaluations': stats.get('files', 0) + stats.get('histories', 0),
+        'evaluations': stats.get('files', 0) + stats.get('histories', 0) + nseg,
         'distinct_nontrivial': len(seen),
         'rule': 'random image sizes (2..48 rows/cols plus > 2048 strips), pixel types RE32F_IM32F / RE16I_IM16I / AMP8I_PHS8I (random strictly increasing table), '
                 'row limits forcing 1..k segments; per case one whole-image write to a path plus 3 (quick) or 6 histories with random row-chunk partitions, '
@@ -197,9 +209,10 @@ def run(tier):
         'samples': [fails[0]['case']] if fails else [{'rows': 17, 'cols': 9, 'pixel_type': 'RE16I_IM16I', 'row_limit': 5}],
         'stats': stats,
         'traces_validated_against_impl': stats.get('histories', 0),
-        'disagreements_checked': 0,
+        'disagreements_checked': len(disagreements),
     })
     chk.assumptions += [
+        'the row segmentation the routing theorem speaks about is the regenerated default_image_segmentation (translator tie, Bridge/Loops.lean, Bridge/LoopsPipe.lean)',
         'the protocol model (Spec.Pipeline) is tied to NITFWriter by comparing the real outputs of both protocols and of permuted/flush-interleaved histories byte for byte, not by a translator',
         'metadata equality is checked through to_dict after derive() on both sides, ignoring ImageCreation (documented stamp)',
         'AMP8I_PHS8I: only table-representable pixels are written (exactness expected); quantisation bounds are C08',
@@ -209,12 +222,17 @@ def run(tier):
         chk.violation(f['msg'], {'case': f, 'replay_cmd': './check C02 --replay <this file>'}, True)
     if len(unknown) > 5:
         chk.notes.append(f'{len(unknown)} failing inputs found, first 5 reported')
-    if not unknown and broken:
-        chk.violation('proof obligation no longer checks: ' + '; '.join(broken[:3]), {'broken_obligations': broken}, False)
+    if not unknown and (broken or disagreements):
+        chk.violation('proof obligation or correspondence no longer checks: ' + '; '.join(broken[:3] + [d['msg'][:200] for d in disagreements[:2]]),
+                      {'broken_obligations': broken, 'disagreements': disagreements[:10]}, False)
     chk.coverage['failing_inputs'] = len(fails)
     return chk.finish()
 
 
 def replay(path):
-    print(json.dumps(json.load(open(path))['case'])[:2000])
+    case = json.load(open(path))['case']
+    if isinstance(case.get('case'), dict) and 'kernel' in case['case']:
+        import loops2
+        return loops2.replay_case(case['case'])
+    print(json.dumps(case)[:2000])
     return 1
